@@ -30,6 +30,7 @@ struct Profile {
   int max_preempts = 6;
   int p_casfail = 15;
   bool guard_level = false;     // only op-level preemption
+  int p_nest = 0;               // percent of (non-MCS) cases that contain nested compatible grants of one thread on one lock
   int max_threads_hi = 4;       // thorough tier may raise
 };
 
@@ -57,6 +58,7 @@ profile_of(const std::string &p)
     f.p_casfail = 30;
   } else if (p == "C07") {
     f.guard_level = true;
+    f.p_nest = 45;
     f.w_juggle = 6;
     f.p_juggle_inside = 45;
     f.sw_none = 4;
@@ -156,6 +158,7 @@ struct Builder {
   int nlocks;
   uint32_t *fresh;
   std::vector<Op> ops;
+  bool nesting = false;
 
   void
   emit(uint8_t code, int a = 0, int b = 0, int c = 0, uint32_t arg = 0)
@@ -362,9 +365,43 @@ struct Builder {
     }
   }
 
+  // two compatible grants of this thread on one lock, then guard operations between them
+  void
+  nest_txn(int l)
+  {
+    emit(ACQ_S, l, 0);
+    if (chance(70)) {
+      emit(ACQ_S, l, 1);
+      switch (weighted({5, 2, 2, 1})) {
+        case 0: emit(MOVE, kS, pick(0, 1), 0); break;  // (a == b is skipped at run time)
+        case 1: emit(MOVECTOR, kS, pick(0, 1)); break;
+        case 2: emit(SELFMOVE, kS, pick(0, 1)); break;
+        default: break;
+      }
+      if (chance(60)) emit(MOVE, kS, 1, 0);
+      if (chance(50)) emit(MOVE, kS, 0, 1);
+    } else {
+      const int ji = pick(0, 1);
+      emit(ACQ_SIX, l, ji);
+      if (chance(50)) emit(READ, kI, ji);
+      if (chance(40)) emit(MOVE, kI, ji, 1 - ji);
+    }
+    if (cls == kOpt && chance(30)) {
+      emit(GETVER, l, 0);
+      emit(TRY_S, 0, pick(0, 1));
+    }
+    if (chance(80)) emit(weighted({1, 1}) ? REL : DROP, kS, 0);
+    if (chance(80)) emit(weighted({1, 1}) ? REL : DROP, kS, 1);
+    if (chance(60)) emit(REL, kI, pick(0, 1));
+  }
+
   void
   txn(int l, bool allow_nested)
   {
+    if (nesting && chance(35)) {
+      nest_txn(l);
+      return;
+    }
     const bool opt = cls == kOpt;
     const int t = weighted({f.w_s, f.w_six, f.w_x, opt ? f.w_optread : 0, opt ? f.w_opttry : 0, opt ? f.w_prep : 0, f.w_juggle,
                             (allow_nested && nlocks == 2 && l == 0) ? f.w_nested : 0});
@@ -414,10 +451,11 @@ gen_case(const Profile &f)
     }
   }
   const int nthr = pick(f.min_thr, f.max_thr);
+  c.allow_nesting = c.cls != kMcs && chance(f.p_nest);
   uint32_t fresh = 0;
   c.threads.resize(nthr);
   for (int t = 0; t < nthr; t++) {
-    Builder b{f, c.cls, c.nlocks, &fresh, {}};
+    Builder b{f, c.cls, c.nlocks, &fresh, {}, c.allow_nesting};
     const int ntx = pick(f.min_txn, f.max_txn);
     for (int k = 0; k < ntx; k++) {
       const int l = c.nlocks == 2 ? pick(0, 1) : 0;
@@ -495,6 +533,7 @@ classify(const std::string &p, const Case &c, const Outcome &o, std::vector<std:
   labels.push_back("locks=" + std::to_string(c.nlocks));
   labels.push_back(std::string("sched=") + (c.sched.preempts.empty() && c.oppre.empty() ? "none" : c.sched.preempts.size() > 8 ? "dense" : c.sched.preempts.empty() ? "oplevel" : "targeted"));
   if (!c.sched.casfails.empty()) labels.push_back("casfail");
+  if (c.allow_nesting) labels.push_back("nested_grants");
   if (o.contended) labels.push_back("contended");
   if (o.waited_granted) labels.push_back("waited_granted");
   if (o.conv_raced) labels.push_back("conv_raced");
